@@ -79,54 +79,51 @@ func c20Consistent(st *account.AccountDB, v *c20View, where string) {
 	if v.byId[0] != nil && v.byId[1] != nil {
 		symx.Check(!bytes.Equal(v.byId[0].Account, v.byId[1].Account), where+": an account controls at most one miner")
 	}
+	// the totals leader election uses equal the sums over the active records
+	wantP, wantV, nP := uint64(0), uint64(0), 0
+	for i := 0; i < 2; i++ {
+		if m := v.byId[i]; m != nil {
+			if m.Type == common.MinerTypeProposer && m.Status == common.MinerStatusNormal && m.ApplyHeight <= c20Height {
+				wantP += m.Stake
+				nP++
+			}
+			if m.Type == common.MinerTypeValidator {
+				wantV += m.Stake
+			}
+		}
+	}
+	totalP, detail := MinerManagerImpl.GetProposerTotalStakeWithDetail(c20Height, st)
+	symx.Check(totalP == wantP && len(detail) == nP, where+": proposer total stake and count equal the sum over the active proposer records")
+	totalV, _ := MinerManagerImpl.GetValidatorsStake([][]byte{c20Ids[0], c20Ids[1]}, st)
+	symx.Check(totalV == wantV, where+": validators' stake equals the sum over the validator records")
 }
 
 func c20Miner(i int, kind byte, stake uint64, acct int) *types.Miner {
 	return &types.Miner{Id: c20Ids[i], PublicKey: []byte{1, 2, byte(i)}, VrfPublicKey: []byte{3, 4, byte(i)}, Type: kind, Stake: stake, Account: c20Accts[acct].Bytes(), ApplyHeight: 1}
 }
 
-// One miner-management operation from a registry that already holds 0..1 miners: conservation of
-// locked + scheduled + liquid, agreement of the lookup paths, one miner per account, and a
-// rejected operation changes nothing.
-func VerifC20_Step() {
-	vsInit(c20Height)
-	st := vsNewState()
-	st.SetBalance(c20Accts[0], vsTokens(10000))
-	st.SetBalance(c20Accts[1], vsTokens(3000))
-	// pre-state: optionally a validator or proposer applied by account 0
-	kind0 := byte(symx.Choice("pre", 3)) // 0 validator, 1 proposer, 2 none
-	if kind0 != 2 {
-		stake := uint64(common.ValidatorStake)
-		if kind0 == common.MinerTypeProposer {
-			stake = common.ProposerStake
-		}
-		ok, _ := MinerManagerImpl.AddMiner(c20Accts[0], c20Miner(0, kind0, stake+uint64(symx.Choice("preextra", 2))*100, 0), st)
-		symx.Check(ok, "the pre-state application is accepted")
-	}
-	before := c20Observe(st)
-	c20Consistent(st, before, "pre-state")
-	total := c20Total(before)
-
+// one miner-management operation (see VerifC20_Step); tag prefixes the input names
+func c20Op(tag string, st *account.AccountDB, before *c20View) bool {
 	accepted := false
-	switch symx.Choice("op", 4) {
+	switch symx.Choice(tag+"op", 4) {
 	case 0: // apply a second miner: id 1, by account 0 or 1, either kind, stake below / at / above the minimum
-		kind := byte(symx.Choice("kind", 2))
+		kind := byte(symx.Choice(tag+"kind", 2))
 		min := uint64(common.ValidatorStake)
 		if kind == common.MinerTypeProposer {
 			min = common.ProposerStake
 		}
-		stake := []uint64{min - 1, min, min + 50}[symx.Choice("stake", 3)]
-		acct := symx.Choice("acct", 2)
+		stake := []uint64{min - 1, min, min + 50}[symx.Choice(tag+"stake", 3)]
+		acct := symx.Choice(tag+"acct", 2)
 		accepted, _ = MinerManagerImpl.AddMiner(c20Accts[acct], c20Miner(1, kind, stake, acct), st)
-		if acct == 0 && kind0 != 2 {
+		if acct == 0 && before.byId[0] != nil {
 			symx.Check(!accepted, "an account that already controls a miner cannot apply another one")
 		}
 		if stake < min {
 			symx.Check(!accepted, "an application below the minimum stake is rejected")
 		}
 	case 1: // add stake to miner 0 from account 0 or 1
-		delta := []uint64{0, 1, 500, 20000}[symx.Choice("delta", 4)]
-		acct := symx.Choice("acct", 2)
+		delta := []uint64{0, 1, 500, 20000}[symx.Choice(tag+"delta", 4)]
+		acct := symx.Choice(tag+"acct", 2)
 		oldStake := uint64(0)
 		if before.byId[0] != nil {
 			oldStake = before.byId[0].Stake
@@ -140,8 +137,8 @@ func VerifC20_Step() {
 			symx.Check(!accepted, "adding stake to an unknown miner is rejected")
 		}
 	case 2: // refund from miner 0: arbitrary amount (part, all, more than the stake, the 'all' sentinel)
-		money := symx.U64("money")
-		acct := symx.Choice("acct", 2)
+		money := symx.U64(tag+"money")
+		acct := symx.Choice(tag+"acct", 2)
 		h, amount, addr, err := RefundManagerImpl.GetRefundStake(c20Height, c20Ids[0], c20Accts[acct].Bytes(), money, st, "casting")
 		accepted = err == nil
 		if accepted {
@@ -169,6 +166,32 @@ func VerifC20_Step() {
 			accepted = true
 		}
 	}
+	return accepted
+}
+
+// One miner-management operation from a registry that already holds 0..1 miners: conservation of
+// locked + scheduled + liquid, agreement of the lookup paths, one miner per account, and a
+// rejected operation changes nothing.
+func VerifC20_Step() {
+	vsInit(c20Height)
+	st := vsNewState()
+	st.SetBalance(c20Accts[0], vsTokens(10000))
+	st.SetBalance(c20Accts[1], vsTokens(3000))
+	// pre-state: optionally a validator or proposer applied by account 0
+	kind0 := byte(symx.Choice("pre", 3)) // 0 validator, 1 proposer, 2 none
+	if kind0 != 2 {
+		stake := uint64(common.ValidatorStake)
+		if kind0 == common.MinerTypeProposer {
+			stake = common.ProposerStake
+		}
+		ok, _ := MinerManagerImpl.AddMiner(c20Accts[0], c20Miner(0, kind0, stake+uint64(symx.Choice("preextra", 2))*100, 0), st)
+		symx.Check(ok, "the pre-state application is accepted")
+	}
+	before := c20Observe(st)
+	c20Consistent(st, before, "pre-state")
+	total := c20Total(before)
+
+	accepted := c20Op("", st, before)
 	after := c20Observe(st)
 	c20Consistent(st, after, "after the operation")
 	symx.Check(c20Total(after).Cmp(total) == 0, "locked stake + scheduled refunds + liquid balances stay constant")
@@ -181,6 +204,32 @@ func VerifC20_Step() {
 			}
 		}
 		symx.Check(after.scheduled.Cmp(before.scheduled) == 0, "a rejected operation schedules nothing")
+	}
+	symx.Reach("end")
+}
+
+// thorough: two operations in sequence from each pre-state; the invariants after each
+func VerifC20T_TwoSteps() {
+	vsInit(c20Height)
+	st := vsNewState()
+	st.SetBalance(c20Accts[0], vsTokens(10000))
+	st.SetBalance(c20Accts[1], vsTokens(3000))
+	kind0 := byte(symx.Choice("pre", 3))
+	if kind0 != 2 {
+		stake := uint64(common.ValidatorStake)
+		if kind0 == common.MinerTypeProposer {
+			stake = common.ProposerStake
+		}
+		ok, _ := MinerManagerImpl.AddMiner(c20Accts[0], c20Miner(0, kind0, stake, 0), st)
+		symx.Check(ok, "the pre-state application is accepted")
+	}
+	v := c20Observe(st)
+	total := c20Total(v)
+	for step := 0; step < 2; step++ {
+		c20Op("s"+string(rune('0'+step))+".", st, v)
+		v = c20Observe(st)
+		c20Consistent(st, v, "after each of two operations")
+		symx.Check(c20Total(v).Cmp(total) == 0, "locked stake + scheduled refunds + liquid balances stay constant")
 	}
 	symx.Reach("end")
 }
